@@ -130,6 +130,8 @@ MUTATORS = {
         ("bp constructor aliases tn", r"quimb/tensor/belief_propagation/bp_common\.py$", r"^(\s+)self\.tn = tn if inplace else tn\.copy\(\)\s*$", r"\1self.tn = tn"),
     ],
     "C15": [
+        ("parallel reduction pairs in reverse", r"quimb/core\.py$", r"^(\s+)paired_x = partition_all\(2, x\)\s*$", r"\1paired_x = tuple(partition_all(2, x))[::-1]"),
+        ("reduction folds pairs backwards", r"quimb/core\.py$", r"^(\s+)return fn\(\*x\)\s*$", r"\1return fn(*x[::-1])"),
         ("ownership dropped from keyword dict", r"quimb/gen/operators\.py$", r"^(\s+)\"ownership\": ownership,\s*$", None),
         ("ownership dropped", r"quimb/(core|gen/operators)\.py$", r"^(\s+)ownership=ownership,\s*$", None),
         ("sibling arguments swapped", r"quimb/core\.py$", r"^(\s+)return _permute_sparse\(p, dims, perm\)\s*$", r"\1return _permute_sparse(p, perm, dims)"),
@@ -137,6 +139,8 @@ MUTATORS = {
         ("range not rejected", r"quimb/core\.py$", r"^(\s+)raise ValueError\(f\"Ownership \(\{ri\}, \{rf\}\) not in range \[0-\{D\}\]\.\"\)\s*$", r"\1pass"),
     ],
     "C16": [
+        ("parallel reduction pairs in reverse", r"quimb/core\.py$", r"^(\s+)paired_x = partition_all\(2, x\)\s*$", r"\1paired_x = tuple(partition_all(2, x))[::-1]"),
+        ("reduction folds pairs backwards", r"quimb/core\.py$", r"^(\s+)return fn\(\*x\)\s*$", r"\1return fn(*x[::-1])"),
         ("running row counter across blocks", r"quimb/core\.py$", r"^(\s+)ia, ib = divmod\(i, p\)\s*$", r"\1ib += 1"),
         ("every thread does all blocks", r"quimb/core\.py$", r"^(\s+)for b in range\(thread_rank, num_blocks, num_threads\):\s*$", r"\1for b in range(num_blocks):"),
         ("no lower clamp", r"quimb/core\.py$", r"^(\s+)num_blocks = max\(num_blocks, 1\)\s*$", None),
